@@ -123,8 +123,12 @@ class Aggregate:
             ent["count"] += 1
             size = size_fn(trace) if size_fn else 0
             cases = ent["cases"]
+            vtrace = trace
+            if v.get("trace_patch"):
+                vtrace = dict(trace)
+                vtrace.update(v["trace_patch"])  # narrows the replay to this violation's own fault
             if len(cases) < self.MAX_PER_SIG or size < cases[-1][0]:
-                cases.append((size, idx, trace, v))
+                cases.append((size, idx, vtrace, v))
                 cases.sort(key=lambda c: (c[0], c[1]))
                 del cases[self.MAX_PER_SIG:]
 
